@@ -68,16 +68,23 @@ func cursorFamily(fn *ssa.Function, tm *Termer, listTerm string) map[ssa.Value]b
 func exhaustedBy(tm *Termer, g Guard, fam map[ssa.Value]bool, listTerm string) bool {
 	// the outcome as a fact `c rel y` about a cursor c of the family, whatever the spelling of the test
 	// (operands exchanged, complement under `!`, branches exchanged)
-	y, set, ok := c07FactAbout(g.Cond, g.True, func(v ssa.Value) bool { return fam[v] })
+	c, y, set, ok := c07FactAboutX(g.Cond, g.True, func(v ssa.Value) bool { return fam[v] })
 	if !ok || fam[y] {
+		return false
+	}
+	// the fact is about the index the list is read at: index = c + off (off = 0 when the cursor is the index itself;
+	// -1 for a version of a cursor that counts the genes left, ...)
+	off, okOff := tm.c07CurOf(listTerm).Off(c)
+	if !okOff {
 		return false
 	}
 	if tm.Of(y).String() == "len("+listTerm+")" {
 		// forward: the outcome excludes c < len (c >= len, c == len, c > len)
-		return set&c07RelLT == 0
+		return off == 0 && set&c07RelLT == 0
 	}
 	if k, isK := c07Int(y); isK {
-		// backward: the outcome implies c < 0 (c < k with k <= 0; c <= k or c == k with k <= -1)
+		// backward: the outcome implies index < 0 (index < k with k <= 0; index <= k or index == k with k <= -1)
+		k += off
 		return (k <= 0 && set == c07RelLT) || (k <= -1 && set&c07RelGT == 0)
 	}
 	return false
@@ -88,20 +95,32 @@ func exhaustedBy(tm *Termer, g Guard, fam map[ssa.Value]bool, listTerm string) b
 // and moves by one step per iteration under this very test they are the same fact (the callers prove start and step).
 // This is NOT the complement of exhaustedBy: `c > len` refused says c <= len, which is not "inside".
 func inRangeBy(tm *Termer, g Guard, fam map[ssa.Value]bool, listTerm string) bool {
-	return c07InRangeFact(tm, g, func(v ssa.Value) bool { return fam[v] }, listTerm)
+	cur := tm.c07CurOf(listTerm)
+	return c07InRangeFactOff(tm, g, func(v ssa.Value) bool { return fam[v] }, listTerm, cur.Off)
 }
 
-// c07InRangeFact is inRangeBy for a cursor value picked by a predicate (e.g. "resolves, on this path, to the
-// value the cursor has at the start of the iteration").
+// c07InRangeFact is inRangeBy for a cursor value picked by a predicate that identifies a VERSION of the cursor
+// variable (e.g. "resolves, on this path, to the value the cursor has at the start of the iteration").
 func c07InRangeFact(tm *Termer, g Guard, is func(ssa.Value) bool, listTerm string) bool {
-	y, set, ok := c07FactAbout(g.Cond, g.True, is)
+	bias := tm.c07BiasOf(listTerm)
+	return c07InRangeFactOff(tm, g, is, listTerm, func(ssa.Value) (int64, bool) { return bias, true })
+}
+
+// c07InRangeFactOff: offOf gives, for the operand picked, the constant with index = operand + off.
+func c07InRangeFactOff(tm *Termer, g Guard, is func(ssa.Value) bool, listTerm string, offOf func(ssa.Value) (int64, bool)) bool {
+	c, y, set, ok := c07FactAboutX(g.Cond, g.True, is)
 	if !ok || is(y) {
 		return false
 	}
+	off, okOff := offOf(c)
+	if !okOff {
+		return false
+	}
 	if tm.Of(y).String() == "len("+listTerm+")" {
-		return set == c07RelLT || set == c07RelLT|c07RelGT
+		return off == 0 && (set == c07RelLT || set == c07RelLT|c07RelGT)
 	}
 	if k, isK := c07Int(y); isK {
+		k += off
 		return (k >= 0 && set&c07RelLT == 0) || (k >= -1 && set == c07RelGT) || (k == -1 && set == c07RelLT|c07RelGT)
 	}
 	return false
@@ -303,6 +322,14 @@ func C07(p *Prog, r *Run) {
 		if c1 == nil || c2 == nil || c1 == c2 {
 			r.Undecided(fn.Name()+".cursors", p.Pos(fn.Pos()), "the two cursors are not distinct loop-carried variables")
 			return
+		}
+		// index cursor or count cursor: how each cursor variable relates to the index its list is read at
+		tm.c07cur = map[string]*c07Cur{"recv.Genes": c07CursorInfo(fn, tm, "recv.Genes", c1), "p1.Genes": c07CursorInfo(fn, tm, "p1.Genes", c2)}
+		for _, lt := range []string{"recv.Genes", "p1.Genes"} {
+			if ci := tm.c07cur[lt]; ci != nil && ci.Why != "" {
+				r.Undecided(fn.Name()+".cursors", p.Pos(fn.Pos()), "cannot relate a cursor to the genes it stands for: "+ci.Why)
+				return
+			}
 		}
 		// accumulators
 		opt := func(name string) *types.Var { return p.Field(PkgT, "Options", name) }
